@@ -34,6 +34,7 @@ def gen_case(rng, tier, flavour=None):
     writers = {}      # id -> {"chans": [...], "open": bool, "mode":}
     strs = {}         # id -> {"open": bool, "paused": bool}
     nw = ns = 0
+    bg_active = set()
     closed = False
     paused_writes = 0
     n = rng.randrange(10, 34 if tier == "quick" else 45)
@@ -67,10 +68,11 @@ def gen_case(rng, tier, flavour=None):
         writers[nw] = {"chans": cs, "open": True, "mode": mode}
 
     def write():
-        live = [w for w, d in writers.items() if d["open"]]
+        live = [w for w, d in writers.items() if d["open"] and w not in bg_active]
         if not live:
-            return open_writer()
+            return None if bg_active else open_writer()
         w = rng.choice(live)
+        quiet = bool(bg_active)     # a background writer is active: nothing that closes a writer
         cs = writers[w]["chans"]
         vs = [k for k in cs if k in VIRT]
         ks = rand_keys(vs, 0)
@@ -88,9 +90,9 @@ def gen_case(rng, tier, flavour=None):
                     ks = ks + [rng.choice(others)]        # key the writer never opened
             elif x < 0.16 and vs:
                 ks = ks + [rng.choice(vs)]                # duplicate virtual key
-            elif x < 0.19 and IDX in cs and DATA in cs:
+            elif x < 0.19 and IDX in cs and DATA in cs and not quiet:
                 ks = [k for k in ks if k != DATA] or [IDX]  # partial index group
-            elif x < 0.22 and ks and ks[0] in VIRT:
+            elif x < 0.22 and ks and ks[0] in VIRT and not quiet:
                 bad = True                                # wrong data type
         if vs and rng.random() < 0.02:
             # boundary: the frame mask of telem.Frame handles up to 128 entries
@@ -121,19 +123,24 @@ def gen_case(rng, tier, flavour=None):
         live_s = [s for s, d in strs.items() if d["open"]]
         any_paused = any(d["paused"] for d in strs.values() if d["open"])
         x = rng.random()
+        bg_live = [w for w in bg_active if writers[w]["open"]]
         if closed:
             # after DB.Close: writers keep writing (nothing is delivered any more), plus a few
             # other operations that must fail or be no-ops
             if x < 0.35 and live_w:
                 write()
-            elif x < 0.45 and live_w:
+            elif x < 0.45 and live_w and not bg_live:
                 w = rng.choice(live_w)
                 ops.append({"op": "close_writer", "w": w})
                 writers[w]["open"] = False
+            elif x < 0.5 and bg_live:
+                w = rng.choice(bg_live)
+                ops.append({"op": "join", "w": w})
+                bg_active.discard(w)
             elif x < 0.6:
                 open_streamer()
                 strs[ns]["open"] = False
-            elif x < 0.7:
+            elif x < 0.7 and not bg_live:
                 open_writer()
                 writers[nw]["open"] = False
             elif x < 0.85 and live_s:
@@ -141,13 +148,34 @@ def gen_case(rng, tier, flavour=None):
             else:
                 break
             continue
+        if bg_live and x < 0.12:
+            w = rng.choice(bg_live)
+            ops.append({"op": "join", "w": w})
+            bg_active.discard(w)
+            continue
+        if not pausing and x > 0.955 and live_w:
+            cand = [w for w in live_w if w not in bg_active and any(k in VIRT for k in writers[w]["chans"])]
+            if cand:
+                w = rng.choice(cand)
+                vs = [k for k in writers[w]["chans"] if k in VIRT]
+                kss = []
+                for _ in range(rng.randrange(2, 6)):
+                    ks = rand_keys(vs, 1)
+                    if malformed and rng.random() < 0.1:
+                        others = [k for k in VIRT if k not in writers[w]["chans"]]
+                        if others:
+                            ks = ks + [rng.choice(others)]
+                    kss.append(ks)
+                ops.append({"op": "bg_writes", "w": w, "kss": kss})
+                bg_active.add(w)
+                continue
         if x < 0.42:
             if any_paused:
                 if paused_writes >= 2:
                     continue
                 paused_writes += 1
             write()
-        elif x < 0.50 and len(live_w) < 4:
+        elif x < 0.50 and len(live_w) < 4 and not bg_live:
             open_writer()
         elif x < 0.58 and len(live_s) < 3:
             open_streamer()
@@ -161,11 +189,11 @@ def gen_case(rng, tier, flavour=None):
             strs[s]["open"] = False
         elif x < 0.84:
             ops.append({"op": "sync"})
-        elif x < 0.89 and live_w:
+        elif x < 0.89 and live_w and not bg_live:
             w = rng.choice(live_w)
             ops.append({"op": "close_writer", "w": w})
             writers[w]["open"] = False
-        elif x < 0.94 and live_w:
+        elif x < 0.94 and live_w and not bg_live:
             ops.append({"op": "set_auth", "w": rng.choice(live_w), "auth": rng.choice(AUTHS)})
         elif pausing and live_s:
             s = rng.choice(live_s)
@@ -227,6 +255,10 @@ def c_op(o):
         return "Resume %s" % cN(o["s"])
     if k == "sync":
         return "Sync"
+    if k == "bg_writes":
+        return "BgWrites %s %s" % (cN(o["w"]), clist([c_keys(ks) for ks in (o.get("kss") or [])]))
+    if k == "join":
+        return "Join %s" % cN(o["w"])
     if k == "close_db":
         return "CloseDB"
     raise ValueError(k)
